@@ -103,9 +103,12 @@ let () =
         | 'T' ->
           (match String.split_on_char ':' arg with
            | [k; x; a; r] ->
+             (* variant 6 (empty non-nil containers) is the same JSON value as variant 0 *)
+             let x = if x = "6" then "0" else x in
              let d = { d_node = nat_of_int (ios k); d_extra = nat_of_int (ios x);
                        d_refann = (if a = "-" then None else Some (RTag (nat_of_int (ios a)))) } in
              let rf = if r = "d" then RDig d.d_node
+                      else if r = "B" then RDig (nat_of_int (n + 7))   (* a name Tag refuses: not valid UTF-8 *)
                       else if r.[0] = 'D' then RDig (nat_of_int (ios (String.sub r 1 (String.length r - 1))))
                       else RTag (nat_of_int (ios r)) in
              do_op (OTag (d, rf))
@@ -130,7 +133,7 @@ let () =
           let o = obs !st and r = obs (reopen nn mf succs !st) in
           let xs = String.concat "," (List.map (fun tok ->
             tok ^ (if List.mem_assoc tok !strays then "=1" else "=0")) !all_strays) in
-          Buffer.add_string buf (Printf.sprintf " C[%s|%s|%s|%s|v%d|x:%s]" o r r r (if disk_valid !st then 1 else 0) xs)
+          Buffer.add_string buf (Printf.sprintf " C[%s|%s|%s|%s|%s|v%d|x:%s]" o r r r r (if disk_valid !st then 1 else 0) xs)
         | _ -> failwith "op") ops;
       Printf.printf "%s%s\n" id (Buffer.contents buf)
     | id :: "F" :: _fmt :: cl :: "E" :: rest ->
